@@ -4,7 +4,7 @@ from . import gensparse as gs
 
 reg(Prop("C14",
          [("hist", gs.g_hist, 50), ("partial", gs.g_partial, 30), ("hist_high", gs.g_hist_high, 10),
-          ("hist_wide", gs.g_hist_wide, 10), ("hist_far", gs.g_hist_far, 8), ("outdomain", gs.g_outdomain, 1)],
+          ("hist_wide", gs.g_hist_wide, 10), ("hist_far", gs.g_hist_far, 8), ("restore", gs.g_restore, 5), ("outdomain", gs.g_outdomain, 1)],
          has("composed"),
          "histories of 2-40 Store/Load/Missing/Blocks on a fresh Sparse: addresses in a 40-byte window (and the same "
          "shapes just below 2^64, and two regions at least 2^63 bytes apart with interleaved operations), widths 1..12 mostly, up to 255; constants with distinct bytes, registers, memory "
